@@ -11,11 +11,11 @@ cd $W && git checkout -q -- . && git clean -fdq -- src && rm -f tests/demo.rs
 git apply --check $S/patch.diff || { echo "$ID-$X: patch does not apply"; exit 2; }
 git apply $S/patch.diff
 mkdir -p tests && cp $S/demo.rs tests/demo.rs
-SUITE=$(CARGO_NET_OFFLINE=true cargo test --offline --lib 2>&1 | grep -E "^test result" | head -1)
-if echo "$SUITE" | grep -q "FAILED"; then SUITE2=$(CARGO_NET_OFFLINE=true cargo test --offline --lib 2>&1 | grep -E "^test result|^test .*FAILED" | tr '\n' ' '); SUITE="$SUITE || rerun: $SUITE2"; fi
-DEMO_P=$(CARGO_NET_OFFLINE=true cargo test --offline --test demo 2>&1 | grep -E "^test result" | head -1)
+SUITE=$(CARGO_NET_OFFLINE=true cargo test --offline --lib 2>&1 | grep -E "^test result:" | head -1)
+if echo "$SUITE" | grep -q "FAILED"; then SUITE2=$(CARGO_NET_OFFLINE=true cargo test --offline --lib 2>&1 | grep -E "^test result:|^test .*FAILED" | tr '\n' ' '); SUITE="$SUITE || rerun: $SUITE2"; fi
+DEMO_P=$(CARGO_NET_OFFLINE=true cargo test --offline --test demo 2>&1 | grep -E "^test result:" | head -1)
 git checkout -q -- . && git clean -fdq -- src
-DEMO_C=$(CARGO_NET_OFFLINE=true cargo test --offline --test demo 2>&1 | grep -E "^test result" | head -1)
+DEMO_C=$(CARGO_NET_OFFLINE=true cargo test --offline --test demo 2>&1 | grep -E "^test result:" | head -1)
 rm -f tests/demo.rs; rmdir tests 2>/dev/null
 echo "$ID-$X suite(patched): $SUITE | demo patched: $DEMO_P | clean: $DEMO_C"
 mkdir -p $OUT && cp $S/patch.diff $OUT/patch.diff && cp $S/demo.rs $OUT/demo.rs && cp $S/meta.json $OUT/agent_meta.json
